@@ -35,6 +35,8 @@ picks = [
  ("w_alias_dquote", first(lambda c: c["kind"] == "alias" and c["meta"]["alias"] == 'a"b')),
  ("w_alias_space", first(lambda c: c["kind"] == "alias" and c["meta"]["alias"] == 'a b')),
  ("w_K6_json_default", first(lambda c: c["kind"] == "directed-json-default-old-row")),
+ ("w_upd_2p53", first(lambda c: c["kind"] == "directed-update-int-above-2p53")),
+ ("w_svc_multiline", first(lambda c: c["kind"] == "directed-service-multiline-literal")),
  ("w_search_plain", first(lambda c: c["kind"] == "search" and c["meta"]["term"] == "hello")),
 ]
 # open class 5 (the term reaches FTS5 as a query expression)
